@@ -65,6 +65,14 @@ def fix_wikipedia_siteinfo(siteinfo):
 
 
 
+_edge_rex = re.compile("^[\\s\u200e\u200f]+|[\\s\u200e\u200f]+$")
+
+
+def _strip_edges(txt):
+    """strip whitespace and left-to-right/right-to-left marks, in any mix"""
+    return _edge_rex.sub("", txt)
+
+
 class NsHandler:
     def __init__(self, siteinfo):
         if siteinfo is None:
@@ -126,22 +134,21 @@ class NsHandler:
     def splitname(self, title, defaultns=0):
         if not isinstance(title, str):
             title = title.decode('utf-8') if isinstance(title, bytes) else str(title)
-        name = re.sub(r' +', ' ', title.replace("_", " ").strip())
+        name = re.sub(r' +', ' ', _strip_edges(title.replace("_", " ")))
         if name.startswith(":"):
-            name = name[1:].strip()
+            name = _strip_edges(name[1:])
             defaultns = 0
 
         if ":" in name:
             namespace, partial_name = name.split(":", 1)
             was_namespace, nsnum, prefix = self._find_namespace(namespace,
                                                                 defaultns=defaultns)
-            suffix = partial_name.strip() if was_namespace else name
+            suffix = _strip_edges(partial_name) if was_namespace else name
         else:
             prefix = self.siteinfo["namespaces"][str(defaultns)]["*"]
             suffix = name
             nsnum = defaultns
 
-        suffix = suffix.strip("\u200e\u200f")
         suffix = self.maybe_capitalize(suffix)
         if prefix:
             prefix += ":"
